@@ -2,6 +2,7 @@ package main
 
 import (
 	"math"
+	"math/big"
 
 	"golang.org/x/tools/go/ssa"
 )
@@ -22,6 +23,78 @@ func propC08(a *Analysis, r *Registry) {
 	const rB = "B-C08 formula"
 	tiny := X.S.Float(math.SmallestNonzeroFloat64)
 	rz := func(e string) string { return "ite(abs(" + e + ")<tiny, tiny, " + e + ")" }
+
+	// resultAndConvergence: the value returned by an iterative evaluation and the test under which it
+	// is returned. Returned from inside the converging iteration, the value is that iteration's
+	// updated one (specMid) and the test is the branch leading to the return; with the test carried
+	// out of the loop in a flag and the value returned after the loop, it is the one the last
+	// iteration left (specExit) and the test is the condition setting the flag. The tolerance is
+	// whatever small positive constant the code uses (eps).
+	resultAndConvergence := func(construct string, fc *FC, ret *ssa.Return, rv, carried *RF, env *SpecEnv, specMid, specExit, conv string) {
+		phase := b.ReturnPhase(fc, ret, carried)
+		at := carried.SingleAtom()
+		var got *RF
+		switch phase {
+		case "mid":
+			b.Eq(rB, construct+"/result", a.W.InstrPos(ret), rv, env, specMid)
+			hdr := X.phiOf[at.ID].Block()
+			_, gc, _, msg := b.loopGuard(fc, hdr)
+			if msg != "" {
+				r.Undecided(rB, construct+"/convergence-test", a.W.InstrPos(ret), msg)
+				return
+			}
+			got = X.SimplifyUnder(fc.ReachCondFrom(hdr, ret.Block()), []Assumption{{Cond: gc, True: true}})
+		case "exit":
+			b.Eq(rB, construct+"/result", a.W.InstrPos(ret), rv, env, specExit)
+			hdr := X.phiOf[at.ID].Block()
+			var fl []latch
+			for _, lf := range fc.latchFlags(hdr) {
+				if !lf.dead {
+					fl = append(fl, lf)
+				}
+			}
+			if len(fl) != 1 {
+				r.Undecided(rB, construct+"/convergence-test", a.W.InstrPos(ret), "the value is returned after the loop, but no single flag carries the convergence test out of it")
+				return
+			}
+			got = fl[0].flip
+		default:
+			r.Undecided(rB, construct+"/result", a.W.InstrPos(ret), "the value is returned neither from inside an iteration nor only after the loop's guard fails")
+			return
+		}
+		var eps *RF
+		var walk func(v *RF)
+		walk = func(v *RF) {
+			if c, ok := v.IsConst(); ok {
+				if c.Sign() > 0 && c.Cmp(big.NewRat(1, 1000000)) < 0 {
+					eps = v
+				}
+				return
+			}
+			for _, t := range v.Atoms(false) {
+				for _, ar := range t.Args {
+					walk(ar)
+				}
+			}
+			for _, c := range v.Coeffs() {
+				if c.Sign() > 0 && c.Cmp(big.NewRat(1, 1000000)) < 0 {
+					eps = X.S.Const(c)
+				}
+			}
+		}
+		walk(got)
+		if eps == nil {
+			r.Fail(rB, construct+"/convergence-test", a.W.InstrPos(ret), "no small positive tolerance in the test under which the value is returned: "+clip(got.String(), 200))
+			return
+		}
+		e2 := *env
+		e2.Vars = map[string]SVal{}
+		for k, v := range env.Vars {
+			e2.Vars[k] = v
+		}
+		e2.Set("eps", eps, nil)
+		b.Eq(rB, construct+"/convergence-test", a.W.InstrPos(ret), got, &e2, conv)
+	}
 
 	b.Formula(rB, "mathx.Beta", "mathx.Beta", []string{"a", "b"}, nil, 0, "exp(lgamma(a)+lgamma(b)-lgamma(a+b))", nil)
 	b.Formula(rB, "mathx.BetaInc", "mathx.BetaInc", []string{"x", "a", "b"},
@@ -62,7 +135,8 @@ func propC08(a *Analysis, r *Registry) {
 				for k, v := range vars {
 					env.Set(k, v, nil)
 				}
-				b.Eq(rB, "mathx.betacf/result", a.W.InstrPos(ret), rv, env, "h*("+d1+")*("+c1+")*("+d2+")*("+c2+")")
+				resultAndConvergence("mathx.betacf", fc, ret, rv, vars["h"], env, "h*("+d1+")*("+c1+")*("+d2+")*("+c2+")", "h",
+					"abs(("+d2+")*("+c2+")-1)<eps")
 			}
 		})
 	}
@@ -110,7 +184,8 @@ func propC08(a *Analysis, r *Registry) {
 				for k, v := range vars {
 					env.Set(k, v, nil)
 				}
-				b.Eq(rB, "mathx.gammaIncSeries/result", a.W.InstrPos(ret), rv, env, "(sum+del*x/(ap+1))*"+pref)
+				resultAndConvergence("mathx.gammaIncSeries", fc, ret, rv, vars["sum"], env, "(sum+del*x/(ap+1))*"+pref, "sum*"+pref,
+					"abs(del*x/(ap+1))<abs(sum+del*x/(ap+1))*eps")
 			}
 			got, n := fc.ReturnCond(func(rt *ssa.Return) bool {
 				c, ok := rt.Results[0].(*ssa.Const)
@@ -145,7 +220,8 @@ func propC08(a *Analysis, r *Registry) {
 				for k, v := range vars {
 					env.Set(k, v, nil)
 				}
-				b.Eq(rB, "mathx.gammaIncCF/result", a.W.InstrPos(ret), rv, env, pref+"*h*("+dd+")*("+cc+")")
+				resultAndConvergence("mathx.gammaIncCF", fc, ret, rv, vars["h"], env, pref+"*h*("+dd+")*("+cc+")", pref+"*h",
+					"abs(("+dd+")*("+cc+")-1)<eps")
 			}
 		})
 	}
@@ -265,34 +341,18 @@ func propC08(a *Analysis, r *Registry) {
 		fc := X.FCFor(fn)
 		loops := fc.Ctx.Loops()
 		ok := len(loops) == 1
+		why := ""
 		for _, l := range loops {
-			exitsToPanic := false
-			for i, s := range l.Header.Succs {
-				if !l.Body[s.Index] && fc.Ctx.EdgeLive(l.Header, i) {
-					if _, isP := s.Instrs[len(s.Instrs)-1].(*ssa.Panic); isP {
-						exitsToPanic = true
-					}
-				}
-			}
-			ifi, isIf := l.Header.Instrs[len(l.Header.Instrs)-1].(*ssa.If)
-			bounded := false
-			if isIf {
-				if c := fc.Val(ifi.Cond).SingleAtom(); c != nil && isCmpName(c.Name) {
-					for _, side := range c.Args {
-						if _, isC := side.IsConst(); isC {
-							bounded = true
-						}
-					}
-				}
-			}
-			if !exitsToPanic || !bounded {
+			bounded, w := b.BoundedOrPanics(fc, l)
+			if !bounded {
 				ok = false
 			}
+			why = w
 		}
 		if ok {
-			r.OK("C-termination", fname, b.pos(fn), "single loop with a constant iteration bound whose exhaustion panics")
+			r.OK("C-termination", fname, b.pos(fn), "single loop with a constant iteration bound whose exhaustion panics ("+why+")")
 		} else {
-			r.Fail("C-termination", fname, b.pos(fn), "loop without constant bound / panic on exhaustion")
+			r.Fail("C-termination", fname, b.pos(fn), "loop without constant bound / panic on exhaustion: "+why)
 		}
 	}
 	b.CheckDFloor("D-floor", "mathx.Choose")
